@@ -126,6 +126,12 @@ class PureCheck:
         cov.update(self.extra_coverage())
         common.write_evidence(self.pid, tier, cov, time.time() - t0, nviol, self.assumptions)
         common.cleanup(self.pid)
+        tp = getattr(self, "tpath", None)
+        if tp is not None:
+            try:
+                tp.unlink()
+            except OSError:
+                pass
         print(f"{self.pid} {tier}: {len(events)} recorded executions validated by TLC, "
               f"{len(classes)} distinct non-trivial classes, drift={drift}, "
               f"design states={sum(d['states'] for d in design)}, violations={nviol}, {time.time() - t0:.1f}s")
